@@ -68,7 +68,7 @@ PROP = {
                    "thorough": {"histories_linearizable": 20000, "conc_ops": 480000}},
     }, {
         "name": "switch", "pkg": "htlcswitch", "test": "TestVerifC07Switch",
-        "files": ["htlcswitch/c07_test.go", "htlcswitch/c07sw_test.go"],
+        "files": ["htlcswitch/c07_test.go", "htlcswitch/c07sw_test.go", "htlcswitch/c07swcrash_test.go"],
         "shards": {"quick": 8, "thorough": 16},
         "watchdog": {"quick": 900, "thorough": 5400},
         "floors": {"quick": {"sw_ops": 60000, "sw_restarts": 7500, "sw_restart_state_evals": 7500, "sw_forwards": 6000,
